@@ -132,10 +132,10 @@ theorem C04_roundtrip_core (c : Trace.Code) (O : Trace.Options) (ext : Ext) (n :
     obtain ⟨v, hv, rfl⟩ := List.mem_map.mp hx
     exact ser_ok t v (hwt v hv)
   obtain ⟨hlen, cols, hc1, hc2, hc3, hc4⟩ := Props.C01.C01_build_decode ext fields (vs.map (ser t)) arrs
-    (fun f hf => (hside f hf).1) (fun f hf => (hside f hf).2.1)
-    (List.all_eq_true.mpr fun f hf => (hside f hf).2.2) hsafe (fun x hx => (hser x hx).1) htm
+    (fun f hf => (hside f hf).1)
+    (List.all_eq_true.mpr fun f hf => (hside f hf).2) hsafe (fun x hx => (hser x hx).1) htm
   obtain ⟨_, hwf⟩ := Props.C03.C03_wf ext fields (vs.map (ser t)) arrs
-    (fun f hf => (hside f hf).1) (fun f hf => (hside f hf).2.1) hsafe hext (fun x hx => (hser x hx).2) htm
+    (fun f hf => (hside f hf).1) hsafe hext (fun x hx => (hser x hx).2) htm
   have hrl : (vs.map (ser t)).length = vs.length := List.length_map _
   -- the root reader
   have hcols : Spec.wfFields (mappingFields o fs) (zipCols fields arrs) vs.length = true := by
@@ -204,8 +204,8 @@ rendering of a typed value as the visitor calls of a typed read.
 
 Discharged here (were hypotheses H8 / H1 / H2 / Hinterp of the former composition over interfaces):
   H8  `C04_fromType_mapping` (C08 + `fromTypeSpec_eq`);  H1  `Props.C01.C01_build_decode` + `Props.C03.C03_wf`, their
-  schema side conditions `Map2F`, `SchemaOKF`, `coveredF` by `mappingFields_side` (shape of traced schemas), `noRaw`,
-  `rawOK`, `SValOK` by `ser_ok` (shape of derived serializations);  H2  `Props.C02.read_typed_decode` with `new … = ok`
+  schema side conditions `SchemaOKF`, `coveredF` by `mappingFields_side` (shape of traced schemas), `noRaw`,
+  `SValOK` by `ser_ok` (shape of derived serializations);  H2  `Props.C02.read_typed_decode` with `new … = ok`
   by `newFields_of_wf`, `utf8Ok` by `utf8Ok_lv`, `cast … = must …` by `cast_lv`;  Hinterp  `C04_interpRow_partial`.
 
 `_partial`, remaining hypotheses:
